@@ -6,11 +6,13 @@
 import Driver.Echo
 import Driver.L2
 import Driver.UriId
+import Driver.Codec
 
 def main (args : List String) : IO UInt32 := do
   match args with
   | "echo" :: rest => Driver.Echo.run rest
   | "l2" :: rest => Driver.L2.run rest
   | "uriid" :: rest => Driver.UriId.run rest
+  | "codec" :: rest => Driver.Codec.run rest
   | m :: _ => do IO.eprintln s!"nexus-driver: unknown mode {m}"; return 2
   | [] => do IO.eprintln "usage: nexus-driver <mode> [args]"; return 2
